@@ -1,15 +1,14 @@
-use crate::bx::*;
+use crate::fin::*;
 use muxide::verif_hooks::mp4::verif as mp4h;
 #[kani::proof]
-#[kani::unwind(22)]
-pub fn x_fmt_day0() {
-    let t: u64 = kani::any();
-    kani::assume(t < 86400);
-    let s = mp4h::format_unix_timestamp(t);
-    assert!(s.len() == 20);
-    let b = snap::<20>(s.as_bytes());
-    assert!(b[10] == b'T' && b[19] == b'Z');
-    let hh = (b[11] - b'0') as u64 * 10 + (b[12] - b'0') as u64;
-    assert!(hh == t / 3600);
-    core::mem::forget(s);
+#[kani::unwind(5)]
+#[kani::stub(muxide::invariant_ppt::__assert_invariant_impl, crate::stubs::assert_invariant_stub)]
+#[kani::stub(muxide::muxer::mp4::build_moov_box, muxide::verif_hooks::mp4::verif::moov_recording_stub)]
+pub fn x_fin_v2_u5() {
+    let vpts: [u64; 2] = kani::any();
+    reset_moov_stub(4);
+    let mut w = build_writer::<2, 0>(RecSink::new(), vpts, [true, false], [], false);
+    let r = w.finalize(&VIDEO, None, false);
+    assert!(r.is_ok());
+    core::mem::forget((w, r));
 }
